@@ -96,6 +96,7 @@ def c02(ctx):
             _codec_fail_to_result(res, f3, 'C02')
         # session-level: bytes handed to transport.write() during live sessions are the reference encoding
         f4, nw = _session_writes(ctx, res)
+        _session_reads(ctx, res)
     res.evaluations = stats['cases'] + nun + nbr
     res.programs = stats['cases']
     for (k, f) in cases:
@@ -138,6 +139,46 @@ def _session_writes(ctx, res):
                                        signature='C02 session write', scenario=scen))
     res.extra['session_writes_checked'] = len(lines)
     return [], len(lines)
+
+
+def _session_reads(ctx, res):
+    """broker packets in the standard layout, several per TCP segment (non-ASCII topics, 1/2/3-byte remaining lengths, all flag
+    combinations), reach onPublish with the field values the standard assigns and are acknowledged under the identifier they carry"""
+    import mqttparse
+    rng = cc.RNG(ctx['seed'] + 4242)
+    topics = ['t', 'caf\u00e9/\u6e29\u5ea6', 'a/b/\u00f1', 'x' * 130]
+    sizes = [0, 1, 5, 126, 127, 128, 200, 16379, 16384] + ([70000] if ctx['tier'] != 'quick' else [])
+    n = 0
+    for ver in ('311', '31'):
+        for rep in range(3 if ctx['tier'] == 'quick' else 30):
+            pk = []
+            for _ in range(rng.randrange(2, 6)):
+                q = rng.choice([0, 1, 1, 2])
+                body = bytes(rng.randrange(256) for _ in range(rng.choice(sizes)))
+                mid = rng.choice([1, 255, 256, 0x1234, 65535])
+                hdr_extra = dict(dup=bool(rng.randrange(2)) if q else False, retain=bool(rng.randrange(2)))
+                pk.append(publish_pkt(rng.choice(topics), body, q, mid=mid, **hdr_extra))
+            lines = _prefix(3, ver, 'connected') + ['recv 0 ' + hx(b''.join(pk))]
+            trace = realworld.run_scenario(lines)
+            obs = trace[-1][1]
+            got = [o for o in obs if o.startswith('pub ')]
+            acks = [o.split()[2] for o in obs if o.startswith('w ')]
+            want, wacks = [], []
+            for b in pk:
+                d = mqttparse.parse(b)
+                if d['qos'] < 2:
+                    want.append('pub 0 %s %s %d %d %d %s' % (hx(d['topic'].encode('utf-8')), hx(d['payload']), d['qos'], int(d['dup']),
+                                                          int(d['retain']), '-' if d['id'] is None else str(d['id'])))
+                if d['qos'] == 1:
+                    wacks.append(hx(bytes([0x40, 2, d['id'] >> 8, d['id'] & 255])))
+                if d['qos'] == 2:
+                    wacks.append(hx(bytes([0x50, 2, d['id'] >> 8, d['id'] & 255])))
+            n += len(pk)
+            if got != want or acks != wacks:
+                res.violations.append(dict(what='C02: broker PUBLISH packets in the standard layout are not decoded to the standard\'s field values '
+                                           '(delivered %s, expected %s; acknowledgements %s, expected %s)' % (str(got)[:300], str(want)[:300], acks, wacks),
+                                           signature='C02 session read', scenario=lines))
+    res.extra['session_reads_checked'] = n
 
 
 def _real_only(cases, want_c02):
